@@ -83,6 +83,7 @@ type State struct {
 	definable map[int]bool
 	reads   []streamRead
 	ghostCells map[int]Value
+	recDone map[string]bool
 	guardSnaps map[int]*MapSnap // content of guarded maps right after the last lock acquisition
 	aliasOK map[int]bool // fresh objects handed to the current callee: its results may alias them
 	evBase  int // event builtins see st.events[evBase:]
@@ -148,6 +149,7 @@ func (st *State) clone() *State {
 	n.trail = append([]string{}, st.trail...)
 	n.reads = st.reads
 	n.ghostCells = st.ghostCells
+	n.recDone = st.recDone
 	n.guardSnaps = st.guardSnaps
 	if st.defs != nil {
 		n.defs = map[int]*seqDef{}
@@ -230,6 +232,13 @@ type Machine struct {
 	ctxParent map[int]*Iface
 	runeSrc   map[int]*runeInfo
 	refute    bool
+	onlyProp  string // when set, only clauses tagged with this property are evaluated
+	recCache  map[*ssa.Function]bool
+	recReads  map[*ssa.Function][]string
+	recDepth  map[*ssa.Function]int
+	readTrack map[string]bool
+	memSortOf map[string]*Sort
+	bodyOf    *ssa.Function
 	anteCover map[string][][]*Term
 	anteOrder []string
 	anteTags  map[string][]string
@@ -302,6 +311,10 @@ func (m *Machine) memSort(name string, l leaf, elemMem bool) *Sort {
 }
 
 func (m *Machine) heapGet(st *State, name string, s *Sort) *Term {
+	if m.readTrack != nil {
+		m.readTrack[name] = true
+	}
+	m.memSortOf[name] = s
 	if t, ok := st.heap[name]; ok {
 		if t.sort != s {
 			panic(fmt.Sprintf("heap sort mismatch for %s: %s vs %s", name, t.sort, s))
